@@ -12,6 +12,9 @@ import (
 
 	"github.com/orbs-network/lean-helix-go/services/blockproof"
 	"github.com/orbs-network/lean-helix-go/services/interfaces"
+	"github.com/orbs-network/lean-helix-go/services/leanhelixterm"
+	L "github.com/orbs-network/lean-helix-go/services/logger"
+	"github.com/orbs-network/lean-helix-go/state"
 	"github.com/orbs-network/lean-helix-go/services/messagesfactory"
 	"github.com/orbs-network/lean-helix-go/services/preparedmessages"
 	"github.com/orbs-network/lean-helix-go/spec/types/go/primitives"
@@ -370,6 +373,28 @@ func c20body(c c20case, bad func(clause, format string, a ...interface{})) {
 		}
 		if n != len(cms) {
 			bad("proof-field-changed", "block proof holds %d signers for %d commits", n, len(cms))
+		}
+		// the same through the path the library itself uses at commit time (CommitsToProof -> commit callback)
+		var got []byte
+		st := state.NewState()
+		lg := L.NewLhLogger(&interfaces.Config{Membership: &kit.Membership{Me: km.me}}, st)
+		leanhelixterm.CommitsToProof(lg, km, func(ctx context.Context, b interfaces.Block, p []byte) error {
+			got = append([]byte{}, p...)
+			return nil
+		})(context.Background(), kit.NewBlock(c.Height, "B"), cms)
+		cp := protocol.BlockProofReader(got)
+		it2 := cp.NodesIterator()
+		k := 0
+		for it2.HasNext() {
+			s := it2.NextNodes()
+			if k < len(cms) {
+				sameSender(fmt.Sprintf("commit-callback proof node[%d]", k), cms[k].Content().Sender(), s)
+			}
+			verify(fmt.Sprintf("commit-callback proof node[%d]", k), cp.BlockRef().BlockHeight(), cp.BlockRef().Raw(), s)
+			k++
+		}
+		if k != len(cms) {
+			bad("proof-signers-lost", "the proof handed to the commit callback holds %d signers for %d commits (member ids %d bytes long)", k, len(cms), c.IDLen)
 		}
 	case "VC":
 		var pv primitives.View
